@@ -1,4 +1,4 @@
-import os, sys; ROOT = os.environ.get("JOBLIB_ROOT", "/tmp/wt_t3"); sys.path.insert(0, ROOT); os.environ["PYTHONPATH"] = ROOT + os.pathsep + os.environ.get("PYTHONPATH", "")
+import os, sys; ROOT = os.environ.get("JOBLIB_ROOT", "/repo"); sys.path.insert(0, ROOT); os.environ["PYTHONPATH"] = ROOT + os.pathsep + os.environ.get("PYTHONPATH", "")
 # A resource name containing a newline (a legal POSIX file name) is written
 # verbatim into the line-based request pipe: the resource tracker reads it as
 # two requests. The registered file is never tracked, and a path that was never
